@@ -93,6 +93,21 @@ def _rows_ms(rows, cols=None):
     return out
 
 
+def _scalars_close(a, b, what) -> str:
+    """scalar (non-list) fields of two charts / sets agree (numbers to 1e-9 relative)"""
+    from ..snap import alpha_meta
+
+    ma, mb = alpha_meta(a), alpha_meta(b)
+    for k in sorted(set(ma) | set(mb)):
+        va, vb = ma.get(k), mb.get(k)
+        if isinstance(va, dict) or isinstance(vb, dict):
+            continue  # list-valued fields (osu sample events) are compared as multisets elsewhere
+        num = all(isinstance(v, (int, float)) and not isinstance(v, bool) for v in (va, vb))
+        if not (close(va, vb) if num else eqv(va, vb)):
+            return f"{what}field {k}: {va!r} vs {vb!r}"
+    return ""
+
+
 def _ms_close(a, b, what, rel=1e-9) -> str:
     """Multiset equality of tuples of (key, value) with float closeness."""
     if len(a) != len(b):
@@ -266,9 +281,11 @@ class TwinCompare(OpSpec):
         if len(xs) != len(ys):
             return "number of charts differs"
         for i, (a, b) in enumerate(zip(xs, ys)):
-            m = cmp_map_den(map_den(alpha_map(a)), map_den(alpha_map(b)), f"chart {i} ")
+            m = cmp_map_den(map_den(alpha_map(a)), map_den(alpha_map(b)), f"chart {i} ") or _scalars_close(a, b, f"chart {i} ")
             if m:
                 return m
+        if hasattr(x, "maps") and hasattr(y, "maps"):
+            return _scalars_close(x, y, "set ")
         return ""
 
     @staticmethod
@@ -282,9 +299,17 @@ class TwinCompare(OpSpec):
         if len(xs) != len(ys):
             return f"{len(xs)} vs {len(ys)} result charts"
         for i, (a, b) in enumerate(zip(xs, ys)):
-            m = cmp_map_den(map_den(alpha_map(a)), map_den(alpha_map(b)), f"chart {i} ")
+            m = cmp_map_den(map_den(alpha_map(a)), map_den(alpha_map(b)), f"chart {i} ") or _scalars_close(a, b, f"chart {i} ")
             if m:
                 return m
+        # the file-level fields of a converted set (StepMania's #OFFSET, sample window, ...) are part of what it means
+        sx = x if isinstance(x, list) else [x]
+        sy = y if isinstance(y, list) else [y]
+        for i, (a, b) in enumerate(zip(sx, sy)):
+            if hasattr(a, "maps") and hasattr(b, "maps"):
+                m = _scalars_close(a, b, f"result set {i} ")
+                if m:
+                    return m
         return ""
 
     @staticmethod
